@@ -248,3 +248,14 @@ def bounded_eval_repr(tier, seed):
 
 
 BOUNDED = [bounded_stepped_slices, bounded_eval_repr]
+
+CANARIES = [
+    {'name': 'getitem: index bound off by one again', 'module': 'core', 'only': ['core.Path.__getitem__'], 'expect': ['core.Path.__getitem__'],
+     'old': "            if start < 0 or start >= len(cur_t_path):", 'new': "            if start < 0 or start > len(cur_t_path):"},
+    {'name': 'values: wrong stride start', 'module': 'core', 'only': ['core.Path.values'], 'expect': ['core.Path.values'],
+     'old': "        return cur_t_path[2::2]", 'new': "        return cur_t_path[1::2]"},
+    {'name': '__len__: counts ops not steps', 'module': 'core', 'only': ['core.Path.__len__'], 'expect': ['core.Path.__len__'],
+     'old': "        return (len(self.path_t.__ops__) - 1) // 2", 'new': "        return len(self.path_t.__ops__) // 2 + 1"},
+    {'name': 'setstate: root table swapped', 'module': 'core', 'only': ['LEMMA C18.pickle'], 'expect': ['LEMMA C18.pickle'],
+     'old': "self.__ops__ = ({'T': T, 'S': S, 'A': A}[state[0]],) + state[1:]", 'new': "self.__ops__ = ({'T': T, 'S': A, 'A': S}[state[0]],) + state[1:]"},
+]
